@@ -60,7 +60,8 @@ def main():
         for c in checks:
             t = time.time()
             rc, out = sh(f'/venv/bin/python harness/vcheck.py {c} --tier quick', cwd=VERIF,
-                         env=dict(os.environ, VERIF_SEED=os.environ.get('VERIF_SEED', '0'), DD_REPO=REPO))
+                         env=dict(os.environ, VERIF_SEED=os.environ.get('VERIF_SEED', '0'), DD_REPO=REPO,
+                                  VERIF_EVIDENCE_DIR=os.path.join(VERIF, '.work', 'seed-evidence')))
             viol = [ln for ln in out.split('\n') if ln.startswith('VIOLATION')]
             res['checks'][c] = dict(exit=rc, violations=viol[:3], wall=round(time.time() - t, 1),
                                     tail=out.strip().split('\n')[-1][:300])
